@@ -136,13 +136,14 @@ class FreshnessDateDataParser:
         if hasattr(tz, "localize") and hasattr(tz, "normalize"):
             # pytz zone: the arithmetic above keeps the reference's UTC offset. Move
             # the wall clock by the calendar part and look the offset up again, then
-            # move the instant by the clock part.
-            calendar_part = relativedelta(years=td.years, months=td.months, days=td.days)
+            # move the instant by the clock part. The parts are the units the phrase
+            # counts: td has already folded '24 hours' into a day.
+            clock_units = ("hours", "minutes", "seconds")
+            calendar_part = relativedelta(
+                **{k: v for k, v in kwargs.items() if k not in clock_units}
+            )
             clock_part = relativedelta(
-                hours=td.hours,
-                minutes=td.minutes,
-                seconds=td.seconds,
-                microseconds=td.microseconds,
+                **{k: v for k, v in kwargs.items() if k in clock_units}
             )
             wall = now.replace(tzinfo=None)
             wall = wall + calendar_part if sign > 0 else wall - calendar_part
